@@ -30,7 +30,7 @@ func mapWriters(c *core.Ctx, owner string) (upd, del map[string]string) {
 					upd[root.Name()] = ipos(c, in)
 				}
 			case *ssa.Call:
-				if b, ok := x.Call.Value.(*ssa.Builtin); ok && (b.Name() == "delete" || b.Name() == "clear") && isMap(x.Call.Args[0]) {
+				if b, ok := x.Call.Value.(*ssa.Builtin); ok && (b.Name() == "delete" || b.Name() == "clear") && isMap(rawArgs(x)[0]) {
 					del[root.Name()] = ipos(c, in)
 				}
 			case *ssa.Store:
@@ -303,7 +303,7 @@ func c05(c *core.Ctx) {
 	// deadline cleared on every successful registration
 	var clears []ssa.Instruction
 	for _, cs := range ssax.Calls(rc, false, ssax.ByName("builtin:delete")) {
-		if ssax.AnyIn(ssax.Backward(cs.Instr.Common().Args[0]), ssax.LoadOfField("server.server.offlineClients")) {
+		if ssax.AnyIn(ssax.Backward(rawArgs(cs.Instr)[0]), ssax.LoadOfField("server.server.offlineClients")) {
 			clears = append(clears, cs.Instr)
 		}
 	}
@@ -341,8 +341,8 @@ func c05(c *core.Ctx) {
 		if !isCall || !isCallTo(call, "(time.Time).Add") {
 			return
 		}
-		base := ssax.AnyIn(ssax.Backward(call.Call.Args[0]), func(v ssa.Value) bool { return isCallTo(v, "time.Now") })
-		iv := ssax.AnyIn(ssax.Backward(call.Call.Args[1]), ssax.LoadOfField("gmqtt.Session.ExpiryInterval")) && timeUnit(call.Call.Args[1], 0) == "ns"
+		base := ssax.AnyIn(ssax.Backward(rawArgs(call)[0]), func(v ssa.Value) bool { return isCallTo(v, "time.Now") })
+		iv := ssax.AnyIn(ssax.Backward(rawArgs(call)[1]), ssax.LoadOfField("gmqtt.Session.ExpiryInterval")) && timeUnit(rawArgs(call)[1], 0) == "ns"
 		if base && iv {
 			okDL = true
 		}
@@ -374,7 +374,7 @@ func c05(c *core.Ctx) {
 			}{
 				{"force-removed", func(m map[ssa.Value]ssax.AV) {
 					ssax.Instrs(ur, false, func(_ *ssa.Function, in ssa.Instruction) {
-						if call, ok := in.(*ssa.Call); ok && isCallTo(call, "sync/atomic.LoadInt32") && ssax.AnyIn(ssax.Backward(call.Call.Args[0]), func(v ssa.Value) bool { return ssax.FieldOwner(v) == "server.client.forceRemoveSession" }) {
+						if call, ok := in.(*ssa.Call); ok && isCallTo(call, "sync/atomic.LoadInt32") && ssax.AnyIn(ssax.Backward(rawArgs(call)[0]), func(v ssa.Value) bool { return ssax.FieldOwner(v) == "server.client.forceRemoveSession" }) {
 							m[call] = ssax.AVInt(1)
 						}
 					})
